@@ -319,3 +319,145 @@ def gen_program(r, name, nfuncs=None, offenders=False, threads=0, use_random=Fal
     p.emit(2, "out.append(('raised', type(e).__name__, str(e)))", "tmain", "stmt", ["tid", "n", "out", "ctx", "e"])
     p.emit(0, "")
     return p.finish()
+
+
+# ------------------------------------------------------------------------------------------------ value programs
+VAL_HELPERS = '''
+def mk_deep(d, leaf=7):
+    v = leaf
+    for _i in range(d):
+        v = [v]
+    return v
+
+def mk_tree(b, d):
+    if d == 0:
+        return "leaf"
+    return {"n%d" % i: mk_tree(b, d - 1) for i in range(b)}
+
+def mk_objchain(d):
+    o = P(0, "end")
+    for _i in range(d):
+        o = P(_i + 1, o)
+    return o
+'''
+
+
+def gen_local_stmts(r, n=None, offenders=False, big=False, sharing=False, cycles=False, plain=False):
+    """Statements that bind locals.  Returns (list of source lines, list of local names in binding order)."""
+    lines, names = [], []
+    groups = []
+    n = n if n is not None else r.randrange(1, 7)
+    recipes = ["scalar", "scalar", "nested", "nested", "obj"]
+    if not plain:
+        recipes += ["alias"]
+    if big:
+        recipes += ["biglist", "widedict", "deep", "longstr", "tree", "bigset", "objchain", "bigtuple"]
+    if sharing:
+        recipes += ["shared", "alias", "sharedobj"]
+    if cycles:
+        recipes += ["cyclist", "cycdict", "cycobj", "locals", "mutual"]
+    if offenders:
+        recipes += ["offender", "offender", "offender"]
+    for i in range(n):
+        k = r.choice(recipes)
+        v = "%s%d" % (k[:3], i)
+        groups.append(len(lines))
+        if k == "scalar":
+            lines.append("%s = %s" % (v, scalar_expr(r)))
+        elif k == "nested":
+            lines.append("%s = %s" % (v, value_expr(r, 0, False)))
+        elif k == "obj":
+            lines.append("%s = %s" % (v, r.choice(("P(1, 'b')", "Q(2, [1, 2], {'z': 1})", "S(3, 4)", "HostErr('m', 1)",
+                                                   "P(P(1, 2), Q(3, 4, 5))"))))
+        elif k == "alias":
+            if names:
+                lines.append("%s = %s" % (v, r.choice(names)))
+            else:
+                lines.append("%s = 1" % v)
+        elif k == "biglist":
+            lines.append("%s = %s" % (v, r.choice(("list(range(%d))", "[str(i) * 3 for i in range(%d)]",
+                                                   "[[i, i + 1] for i in range(%d)]", "[P(i, i) for i in range(%d)]"))
+                                      % r.choice((11, 30, 150, 1200))))
+        elif k == "bigtuple":
+            lines.append("%s = tuple([i] for i in range(%d))" % (v, r.choice((11, 40))))
+        elif k == "bigset":
+            lines.append("%s = %s(range(%d))" % (v, r.choice(("set", "frozenset")), r.choice((11, 25, 300))))
+        elif k == "widedict":
+            lines.append("%s = {'k%%d' %% i: %s for i in range(%d)}" % (v, r.choice(("i", "[i]", "str(i)")),
+                                                                     r.choice((11, 40, 1100))))
+        elif k == "deep":
+            lines.append("%s = mk_deep(%d)" % (v, r.choice((2, 4, 5, 6, 9, 30))))
+        elif k == "tree":
+            lines.append("%s = mk_tree(%d, %d)" % (v, r.choice((2, 3, 12)), r.choice((2, 3, 4))))
+        elif k == "objchain":
+            lines.append("%s = mk_objchain(%d)" % (v, r.choice((2, 5, 8))))
+        elif k == "longstr":
+            lines.append("%s = %r * %d" % (v, r.choice(("x", "ab", "é")), r.choice((9, 1024, 1025, 5000))))
+        elif k == "shared":
+            lines.append("%s_s = [1, 'two']" % v)
+            names.append(v + "_s")
+            lines.append("%s = [%s_s, %s_s, {'again': %s_s}]" % (v, v, v, v))
+        elif k == "sharedobj":
+            lines.append("%s_o = P(1, 2)" % v)
+            names.append(v + "_o")
+            lines.append("%s = {'a': %s_o, 'b': [%s_o], 'c': (%s_o,)}" % (v, v, v, v))
+        elif k == "cyclist":
+            lines.append("%s = [1, 2]" % v)
+            lines.append("%s.append(%s)" % (v, v))
+        elif k == "cycdict":
+            lines.append("%s = {'a': 1}" % v)
+            lines.append("%s['me'] = %s" % (v, v))
+        elif k == "cycobj":
+            lines.append("%s = P(1, 2)" % v)
+            lines.append("%s.me = %s" % (v, v))
+        elif k == "mutual":
+            lines.append("%s = {'n': 'x'}" % v)
+            lines.append("%s_y = {'n': 'y', 'other': %s}" % (v, v))
+            lines.append("%s['other'] = %s_y" % (v, v))
+            names.append(v + "_y")
+        elif k == "locals":
+            lines.append("%s = locals()" % v)
+        elif k == "offender":
+            lines.append("%s = %s" % (v, r.choice(OFFENDERS)))
+        names.append(v)
+    gen_local_stmts.last_groups = [lines[a:b] for a, b in zip(groups, groups[1:] + [len(lines)])]
+    return lines, names
+
+
+def gen_value_program(r, name, local_lines, watches_scope=None, nthreads_hint=1, extra_inner=(), post_inner=()):
+    """inner() binds the given locals and reaches the marked line; called through mid() and Holder.run()."""
+    p = start_program(name)
+    for line in VAL_HELPERS.strip("\n").split("\n"):
+        p.lines.append(line)
+    p.emit(0, "")
+    p.emit(0, "G_HOST = 424242")
+    p.emit(0, "")
+    p.emit(0, "def inner(depth, ctx, out):", "inner", "def")
+    scope = ["depth", "ctx", "out"]
+    for line in local_lines:
+        p.emit(1, line, "inner", "assign", scope)
+    for line in extra_inner:
+        p.emit(1, line, "inner", "stmt", scope)
+    p.mark_line = p.emit(1, "mark = depth + 1", "inner", "mark", scope)
+    p.after_line = p.emit(1, "out.append(('inner', mark))", "inner", "stmt", scope)
+    for line in post_inner:
+        p.emit(1, line, "inner", "stmt", scope)
+    p.emit(1, "return mark", "inner", "return", scope)
+    p.emit(0, "")
+    p.emit(0, "def mid(ctx, out):", "mid", "def")
+    p.emit(1, "m1 = {'mid': [1, 2, 3]}", "mid", "assign", ["ctx", "out"])
+    p.mid_call_line = p.emit(1, "return inner(1, ctx, out)", "mid", "call", ["ctx", "out", "m1"])
+    p.emit(0, "")
+    p.emit(0, "class Holder:")
+    p.emit(1, "def __init__(self):", "__init__", "def")
+    p.emit(2, "self.h = 'holder'", "__init__", "assign", ["self"])
+    p.emit(1, "def run(self, ctx, out):", "run", "def")
+    p.emit(2, "hold = ('h', 1)", "run", "assign", ["self", "ctx", "out"])
+    p.emit(2, "return mid(ctx, out)", "run", "call", ["self", "ctx", "out", "hold"])
+    p.emit(0, "")
+    p.emit(0, "def tmain(tid, n, out):", "tmain", "def")
+    p.emit(1, "ctx = {'c': tid * 1000}", "tmain", "assign", ["tid", "n", "out"])
+    p.emit(1, "for rep in range(n):", "tmain", "loop", ["tid", "n", "out", "ctx"])
+    p.emit(2, "out.append(('res', Holder().run(ctx, out)))", "tmain", "call", ["tid", "n", "out", "ctx", "rep"])
+    p.emit(0, "")
+    return p.finish()
